@@ -132,6 +132,9 @@ class Crazyflie():
         self.packet_received.add_callback(self._check_for_answers)
 
         self._answer_patterns = {}
+        # The pending patterns are used by the sending threads (including the
+        # retry timers) and by the incoming handler
+        self._answer_lock = Lock()
 
         self._send_lock = Lock()
 
@@ -314,8 +317,9 @@ class Crazyflie():
 
     def _cancel_answer_timers(self):
         """Forget all pending requests of the link that is going away"""
-        answer_patterns = self._answer_patterns
-        self._answer_patterns = {}
+        with self._answer_lock:
+            answer_patterns = self._answer_patterns
+            self._answer_patterns = {}
         for timer in list(answer_patterns.values()):
             timer.cancel()
 
@@ -332,20 +336,22 @@ class Crazyflie():
         timer.
         """
         longest_match = ()
-        if len(self._answer_patterns) > 0:
-            data = (pk.header,) + tuple(pk.data)
-            for p in list(self._answer_patterns.keys()):
-                logger.debug('Looking for pattern match on %s vs %s', p, data)
-                if len(p) <= len(data):
-                    if p == data[0:len(p)]:
-                        match = data[0:len(p)]
-                        if len(match) >= len(longest_match):
-                            logger.debug('Found new longest match %s', match)
-                            longest_match = match
-        if len(longest_match) > 0:
-            timer = self._answer_patterns.pop(longest_match, None)
-            if timer is not None:
-                timer.cancel()
+        timer = None
+        with self._answer_lock:
+            if len(self._answer_patterns) > 0:
+                data = (pk.header,) + tuple(pk.data)
+                for p in list(self._answer_patterns.keys()):
+                    logger.debug('Looking for pattern match on %s vs %s', p, data)
+                    if len(p) <= len(data):
+                        if p == data[0:len(p)]:
+                            match = data[0:len(p)]
+                            if len(match) >= len(longest_match):
+                                logger.debug('Found new longest match %s', match)
+                                longest_match = match
+            if len(longest_match) > 0:
+                timer = self._answer_patterns.pop(longest_match, None)
+        if timer is not None:
+            timer.cancel()
 
     def send_packet(self, pk, expected_reply=(), resend=False, timeout=0.2):
         """
@@ -373,22 +379,26 @@ class Crazyflie():
                                   lambda: self._no_answer_do_retry(pk,
                                                                    pattern,
                                                                    timeout))
-                self._answer_patterns[pattern] = new_timer
-                new_timer.start()
+                with self._answer_lock:
+                    self._answer_patterns[pattern] = new_timer
+                    new_timer.start()
             elif resend:
                 # Check if we have gotten an answer, if not try again
                 pattern = expected_reply
-                if pattern in self._answer_patterns:
-                    logger.debug('We want to resend and the pattern is there')
-                    # The pattern can be removed by the incoming handler at
-                    # any time (the answer arrived), do not index
-                    if self._answer_patterns.get(pattern):
+                # The pattern is removed by the incoming handler when the
+                # answer arrives: look it up and set the new timer in one
+                # step, an answered request must not be registered again
+                with self._answer_lock:
+                    still_pending = pattern in self._answer_patterns
+                    if still_pending and self._answer_patterns[pattern]:
                         new_timer = Timer(timeout,
                                           lambda:
                                           self._no_answer_do_retry(
                                               pk, pattern, timeout))
                         self._answer_patterns[pattern] = new_timer
                         new_timer.start()
+                if still_pending:
+                    logger.debug('We want to resend and the pattern is there')
                 else:
                     logger.debug('Resend requested, but no pattern found: %s',
                                  self._answer_patterns)
